@@ -3,7 +3,16 @@
 (* input for every flag vector.                                                                    *)
 EXTENDS Api, Json, IOUtils
 Rec == ndJsonDeserialize(IOEnv.TRACE)
-Judge(r) ==
+JudgeC15(r) ==
+  LET jd == JunkDisagreement(r.strict, r.junked) IN
+  (IF r.strict.outcome \notin Outcomes \/ r.inc.outcome \notin Outcomes THEN <<"outcome is not Ok or a structured Error">> ELSE <<>>)
+  \o (IF r.inc.outcome = "err" /\ r.inc.err[1] = "Parse" THEN <<"incomplete mode reports Error::Parse">> ELSE <<>>)
+  \o (IF r.strict.outcome = "ok" /\ ~SameResult(r.strict, r.inc) THEN <<"incomplete mode differs from strict mode that accepts">> ELSE <<>>)
+  \o (IF r.strict.outcome = "err" /\ r.strict.err[1] # "Parse" /\ r.inc.outcome = "err" /\ r.inc.err # r.strict.err THEN <<"preprocessor error differs between the modes">> ELSE <<>>)
+  \o (IF \E i \in 1..Len(r.junked) : r.junked[i].outcome = "err" /\ r.junked[i].err[1] = "Parse" THEN <<"incomplete mode reports Error::Parse on a junk suffix">> ELSE <<>>)
+  \o (IF jd # {} THEN <<"unparsable suffix changes the tree of the accepted part", ToString(CHOOSE i \in jd : TRUE)>> ELSE <<>>)
+
+JudgeApi(r) ==
   LET ca == ClassAgreement(r.calls)
       ia == IncompleteAgreement(r.calls)
       ip == IncompleteNeverParseError(r.calls)
@@ -13,6 +22,11 @@ Judge(r) ==
      \o (IF ca # {} THEN LET p == CHOOSE p \in ca : TRUE IN <<"entry points disagree", Name(p[1]), Name(p[2])>> ELSE <<>>)
      \o (IF r.c15 /\ ia # {} THEN LET p == CHOOSE p \in ia : TRUE IN <<"incomplete mode differs from strict mode that accepts", Name(p[1]), Name(p[2])>> ELSE <<>>)
      \o (IF r.c15 /\ ip # {} THEN <<"incomplete mode reports Error::Parse", Name(CHOOSE i \in ip : TRUE)>> ELSE <<>>)
+Judge(r) == CASE r.kind = "c15" -> JudgeC15(r)
+              [] r.kind = "badbyte" -> BadByteJudgement(r.file, r.off, r.res)
+              [] r.kind = "delclose" -> DeletionJudgement(r.res)
+              [] OTHER -> JudgeApi(r)
+
 VARIABLES l, nbad
 Init == l = 1 /\ nbad = 0
 Next ==
